@@ -772,17 +772,18 @@ SPECS += [
     ("C03", "joined-lines-cut-with-splitlines", "rope/refactor/extract.py",
      replace_expr_where("_join_lines", _is("sourceutils.split_lines(code)"), _expr("code.splitlines()")), ["R03.18"]),
     ("C04", "reindent-cuts-with-splitlines", "rope/refactor/sourceutils.py",
-     replace_expr_where("indent_lines", _is("split_lines(source_code, True)"), _expr("source_code.splitlines(True)")), ["R04.9"]),
+     replace_expr_where("lines_and_strings", _is("split_lines(source_code, True)"), _expr("source_code.splitlines(True)")), ["R04.9"]),
     ("C05", "reindent-cuts-with-splitlines", "rope/refactor/sourceutils.py",
-     replace_expr_where("indent_lines", _is("split_lines(source_code, True)"), _expr("source_code.splitlines(True)")), ["R05.19"]),
-    ("C19", "auto-indent-cuts-with-splitlines", "rope/refactor/restructure.py",
-     replace_expr_where("_ChangeComputer._auto_indent", _is("sourceutils.split_lines(text, True)"), _expr("text.splitlines(True)")), ["R19.15"]),
-    ("C17", "auto-indent-cuts-with-splitlines", "rope/refactor/restructure.py",
-     replace_expr_where("_ChangeComputer._auto_indent", _is("sourceutils.split_lines(text, True)"), _expr("text.splitlines(True)")), ["R17.13"]),
-    ("C14", "minimum-indent-over-splitlines", "rope/refactor/sourceutils.py",
-     replace_expr_where("find_minimum_indents", _is("source_code.split('\\n')"), _expr("source_code.splitlines()")), ["R14.19"]),
-    ("C20", "minimum-indent-over-splitlines", "rope/refactor/sourceutils.py",
-     replace_expr_where("find_minimum_indents", _is("source_code.split('\\n')"), _expr("source_code.splitlines()")), ["R20.16"]),
+     replace_expr_where("lines_and_strings", _is("split_lines(source_code, True)"), _expr("source_code.splitlines(True)")), ["R05.19"]),
+    # (since fix 86a1eab the three re-indenting loops take their lines from sourceutils.lines_and_strings)
+    ("C19", "flagged-lines-cut-with-splitlines", "rope/refactor/sourceutils.py",
+     replace_expr_where("lines_and_strings", _is("split_lines(source_code, True)"), _expr("source_code.splitlines(True)")), ["R19.15"]),
+    ("C17", "flagged-lines-cut-with-splitlines", "rope/refactor/sourceutils.py",
+     replace_expr_where("lines_and_strings", _is("split_lines(source_code, True)"), _expr("source_code.splitlines(True)")), ["R17.13"]),
+    ("C14", "flagged-lines-cut-with-splitlines", "rope/refactor/sourceutils.py",
+     replace_expr_where("lines_and_strings", _is("split_lines(source_code, True)"), _expr("source_code.splitlines(True)")), ["R14.19"]),
+    ("C20", "flagged-lines-cut-with-splitlines", "rope/refactor/sourceutils.py",
+     replace_expr_where("lines_and_strings", _is("split_lines(source_code, True)"), _expr("source_code.splitlines(True)")), ["R20.16"]),
 ]
 
 # builtin modules have no file (fix 927ccf1)
@@ -903,4 +904,35 @@ SPECS += [
 SPECS += [
     ("C17", "chained-assignment-not-refused", "rope/refactor/encapsulate_field.py",
      remove_stmt_where("_FindChangesForModule.get_changed_module", stmt_is("if self._is_in_a_chained_assignment(")), ["R17.16"]),
+]
+
+# the exit status of a version-control program (fix 94f9db6); git rm takes back what was just created (fix 5e71542)
+def _drop_status_test(tree):
+    f = find_func(tree, "_check_call")
+    if f is None:
+        return False
+    f.body = [s_ for s_ in f.body if not isinstance(s_, ast.If)]
+    return True
+
+
+SPECS += [
+    ("C10", "exit-status-not-tested", "rope/base/fscommands.py", _drop_status_test, ["R10.15"]),
+    ("C10", "git-do-drops-the-status", "rope/base/fscommands.py",
+     replace_expr_where("GITCommands._do", lambda n: isinstance(n, ast.Name) and n.id == "_check_call", _expr("_execute")), ["R10.15"]),
+    ("C10", "git-rm-not-forced", "rope/base/fscommands.py",
+     replace_expr_where("GITCommands.remove", _const_is("-f"), const("-q")), ["R10.16"]),
+    ("C10", "git-remove-without-plain-fallback", "rope/base/fscommands.py",
+     remove_stmt_where("GITCommands.remove", stmt_is("if os.path.lexists(path)")), ["R10.16"]),
+]
+
+# re-indenting leaves string literals alone (fix 86a1eab)
+SPECS += [
+    ("C19", "auto-indent-inside-strings", "rope/refactor/restructure.py",
+     replace_expr_where("_ChangeComputer._auto_indent", _is("index != 0 and line.strip() and (not in_string)"), _expr("index != 0 and line.strip()")), ["R19.16"]),
+    ("C04", "indent-lines-inside-strings", "rope/refactor/sourceutils.py",
+     remove_stmt_where("indent_lines", stmt_is("if in_string")), ["R04.12"]),
+    ("C19", "indent-lines-inside-strings", "rope/refactor/sourceutils.py",
+     remove_stmt_where("indent_lines", stmt_is("if in_string")), ["R19.16"]),
+    ("C04", "string-lines-measured", "rope/refactor/sourceutils.py",
+     replace_expr_where("find_minimum_indents", _is("line.strip() == '' or in_string"), _expr("line.strip() == ''")), ["R04.12"]),
 ]
